@@ -19,13 +19,15 @@ CT_CONFIGS = {
 # constant-time list runs the serial field code, which the other configurations cover
 IFMA_OPS = ["ed_mul", "ed_mul_secret_point", "ed_mul_clamped", "ed_multiscalar_1", "ed_multiscalar_2", "ed_multiscalar_3"]
 
+TRACE_TIMEOUT_S = 3600  # a single traced operation takes seconds to a few minutes; this only bounds a hang
+
 L = 2**252 + 27742317777372353535851937790883648493
 
 CT_OPS = [
     "sc_add", "sc_sub", "sc_mul", "sc_neg", "sc_invert", "sc_from_bytes_mod_order", "sc_from_bytes_mod_order_wide",
     "sc_from_canonical_bytes", "sc_batch_invert",
     "ed_add", "ed_sub", "ed_compress", "ed_compress_sp1", "ed_to_montgomery", "ed_neg", "ed_double", "ed_ct_eq", "ed_mul_base", "ed_mul", "ed_mul_secret_point", "ed_mul_clamped", "ed_mul_base_clamped",
-    "ed_multiscalar_1", "ed_multiscalar_2", "ed_multiscalar_3",
+    "ed_multiscalar_1", "ed_multiscalar_2", "ed_multiscalar_3", "ed_multiscalar_n190", "ed_multiscalar_n500", "ed_multiscalar_n800", "ris_multiscalar_n190",
     "ed_table_radix16", "ed_table_radix32", "ed_table_radix64", "ed_table_radix128", "ed_table_radix256",
     "mont_mul_clamped", "mont_mul", "mont_mul_bits_be", "x25519", "x25519_public_key", "x25519_dh",
     "ris_compress", "ris_from_uniform_bytes", "sig_from_bytes", "sig_sign", "sig_sign_prehashed",
@@ -33,6 +35,7 @@ CT_OPS = [
 QUICK_OPS = ["sc_mul", "sc_invert", "ed_mul", "ed_mul_base", "ed_multiscalar_2", "mont_mul", "ed_to_montgomery", "sc_from_bytes_mod_order_wide",
              "ed_add", "mont_mul_clamped", "ris_from_uniform_bytes", "sig_sign", "x25519", "ed_ct_eq"]
 SCALAR_OPS = [o for o in CT_OPS if o.startswith("sc_")]
+BIG_OPS = ["ed_multiscalar_n190", "ed_multiscalar_n500", "ed_multiscalar_n800", "ris_multiscalar_n190"]  # traced with two secrets
 TABLE_OPS = [o for o in CT_OPS if o.startswith("ed_table_")]
 CONTROLS = ["vartime_double_base", "vartime_multiscalar"]
 
@@ -99,7 +102,7 @@ def trace(bins, op, secret_path, dump=None):
     """Run one traced execution; returns (hash, n_instr, n_load, n_store) or raises."""
     if bins.get("stepper"):
         p = subprocess.run(["env", "-i", bins["ct-step"], bins["ct_marker_begin"], bins["ct_marker_end"], bins["ct-subject"], op, secret_path],
-                           stdout=subprocess.PIPE, stderr=subprocess.PIPE, text=True)
+                           stdout=subprocess.PIPE, stderr=subprocess.PIPE, text=True, timeout=TRACE_TIMEOUT_S)
         if p.returncode != 0:
             raise RuntimeError("ptrace stepper failed for %s: rc=%s %s" % (op, p.returncode, p.stderr[-300:]))
         f = p.stdout.split()
@@ -111,7 +114,12 @@ def trace(bins, op, secret_path, dump=None):
     p1 = subprocess.Popen(cmd, stdout=subprocess.PIPE, stderr=subprocess.DEVNULL)
     p2 = subprocess.Popen(cut, stdin=p1.stdout, stdout=subprocess.PIPE, stderr=subprocess.PIPE, text=True)
     p1.stdout.close()
-    out, err = p2.communicate()
+    try:
+        out, err = p2.communicate(timeout=TRACE_TIMEOUT_S)
+    except subprocess.TimeoutExpired:
+        p1.kill()
+        p2.kill()
+        raise RuntimeError("trace of %s did not finish within %d s (subject does not terminate under the tracer?)" % (op, TRACE_TIMEOUT_S))
     p1.wait()
     if p2.returncode != 0 or p1.returncode != 0:
         raise RuntimeError("trace failed for %s: valgrind rc=%s cut rc=%s %s" % (op, p1.returncode, p2.returncode, err[-300:]))
@@ -137,15 +145,15 @@ def run(pid, tier, log, scratch):
     if tier == "quick":
         # every operation of the list on the default build (except the three slowest table radices), a thinner
         # secret alphabet than the thorough tier; the core operations again on the serial and IFMA builds
-        plan = [("simd", True, [o for o in CT_OPS if o not in TABLE_OPS[2:]]), ("serial64", True, QUICK_OPS[:7]), ("avx512", True, ["ed_mul", "ed_mul_secret_point", "ed_multiscalar_2"]),
+        plan = [("simd", True, [o for o in CT_OPS if o not in TABLE_OPS[2:] and o not in BIG_OPS[1:]]), ("serial64", True, QUICK_OPS[:7]), ("avx512", True, ["ed_mul", "ed_mul_secret_point", "ed_multiscalar_2"]),
                 # the 32-bit and fiat backends have their own scalar and field code: every scalar kernel plus one
                 # operation per point-arithmetic family
                 ("serial32", True, SCALAR_OPS + ["ed_mul", "mont_mul", "ed_compress", "sig_sign"]),
                 ("fiat64", True, ["sc_mul", "sc_invert", "ed_mul", "mont_mul"]),
                 ("fiat32", True, ["sc_mul", "sc_sub", "ed_mul", "mont_mul"])]
     else:
-        plan = [("simd", True, CT_OPS), ("simd", False, [o for o in CT_OPS if o not in TABLE_OPS]), ("serial64", True, CT_OPS),
-                ("serial32", True, [o for o in CT_OPS if o not in TABLE_OPS[1:]]), ("fiat64", True, QUICK_OPS + [o for o in SCALAR_OPS if o not in QUICK_OPS]), ("fiat32", True, QUICK_OPS + [o for o in SCALAR_OPS if o not in QUICK_OPS]),
+        plan = [("simd", True, CT_OPS), ("simd", False, [o for o in CT_OPS if o not in TABLE_OPS and o not in BIG_OPS]), ("serial64", True, [o for o in CT_OPS if o not in BIG_OPS[1:]]),
+                ("serial32", True, [o for o in CT_OPS if o not in TABLE_OPS[1:] and o not in BIG_OPS]), ("fiat64", True, QUICK_OPS + [o for o in SCALAR_OPS if o not in QUICK_OPS]), ("fiat32", True, QUICK_OPS + [o for o in SCALAR_OPS if o not in QUICK_OPS]),
                 ("avx512", True, IFMA_OPS), ("avx512", False, IFMA_OPS[:3])]
     secs = secrets(tier)
     sdir = os.path.join(scratch, "secrets")
@@ -162,6 +170,8 @@ def run(pid, tier, log, scratch):
             built[(cfg, tables)] = build(cfg, tables, log)
     # table construction under valgrind is slow: the per-radix table operations use a thinner alphabet
     def sel(op):
+        if op in BIG_OPS:
+            return [0, 2]  # the all-zero secret and the counting pattern
         return range(len(secs)) if op not in TABLE_OPS else range(min(len(secs), 8))
     jobs = []
     for cfg, tables, ops in plan:
@@ -202,14 +212,17 @@ def run(pid, tier, log, scratch):
                 controls_ok[(cfg, tables, op)] = len(distinct) >= 2
                 continue
             if len(distinct) != 1:
-                other = next(si for si in range(len(hs)) if hs[si][0] != hs[0][0])
-                div = first_divergence(built[(cfg, tables)], op, spaths[0], spaths[other], scratch)
+                idx = list(sel(op))
+                pos = next(k for k in range(len(hs)) if hs[k][0] != hs[0][0])
+                first, other = idx[0], idx[pos]
+                hs = {idx[k]: h for k, h in enumerate(hs)}
+                div = first_divergence(built[(cfg, tables)], op, spaths[first], spaths[other], scratch)
                 violations.append({
                     "property": pid,
                     "key": "trace.%s" % op,
                     "what": "the (instruction, address) trace of %s on %s differs between secrets '%s' and '%s' (%d vs %d instructions); first divergence: %s" % (
-                        op, cfg, secs[0][0], secs[other][0], hs[0][1], hs[other][1], json.dumps(div)),
-                    "case": {"kind": "trace", "config": cfg, "tables": tables, "op": op, "secret_a": secs[0][1].hex(), "secret_b": secs[other][1].hex(), "divergence": div},
+                        op, cfg, secs[first][0], secs[other][0], hs[first][1], hs[other][1], json.dumps(div)),
+                    "case": {"kind": "trace", "config": cfg, "tables": tables, "op": op, "secret_a": secs[first][1].hex(), "secret_b": secs[other][1].hex(), "divergence": div},
                     "config": {"config": "ct-" + cfg, "variant": "tables" if tables else "notables", "dispatch": "auto"},
                 })
     for k, ok in controls_ok.items():
